@@ -85,6 +85,15 @@ def run(prop, tier, seed, verdict):
     base = shipped() + [parsegen.render(parsegen.gen_desc(rng, KEY, ABS)).encode() for _ in range(40)]
     files = corpus_files(prop) + list(base)
     kinds = {"shipped+generated": len(base), "corpus": len(files) - len(base)}
+    # every rejection path of the parser, each followed by further reads in the same process (state left behind by a
+    # rejected file must not stop the next read): the field-by-field invalidations of C10
+    for _ in range(60 if tier == "quick" else 2000):
+        d = parsegen.gen_desc(rng, KEY, ABS)
+        for kind, dd, extra in parsegen.invalidations(d, rng):
+            files.append(parsegen.render(dd, extra).encode())
+            kinds["one-field-invalid"] = kinds.get("one-field-invalid", 0) + 1
+        files.append(parsegen.render(d).encode())
+    n += len(files)
     while len(files) < n:
         r = rng.random()
         if r < 0.8:
@@ -190,7 +199,7 @@ def run(prop, tier, seed, verdict):
         "evaluations": len(files) + len(hfiles), "distinct_nontrivial": len(set(files)) + len(set(hfiles)),
         "rule": "device configurations: the shipped files and 40 generated valid descriptions, each mutated 1-3 times (line deletion/duplication, "
                 "value retyping incl. dates, arrays, inline tables, huge numbers; dotted keys; byte flips; truncation; stray headers), random bytes up to 64 KiB, "
-                "one-line files with odd types; hidi.toml likewise. distinct = distinct file contents; non-trivial: all (every file is a different input to the parser)",
+                "one-line files with odd types; generated descriptions with exactly one invalid field (every rejection path), each followed by more reads in the same process; hidi.toml likewise. distinct = distinct file contents; non-trivial: all (every file is a different input to the parser)",
         "kinds": kinds, "outcomes_device_config": outcomes, "outcomes_hidi_config": houtcomes,
         "decoded_and_compared_with_model": decoded, "traces_validated_against_impl": decoded + sum(1 for a, b in hres if b),
         "disagreements": len(disag) + len(hdis), "not_compared_ambiguous_alias_tables": n_amb,
